@@ -447,7 +447,7 @@ def replay_counterexample(pid, crate, h, outdir):
         except Exception:
             extra = None
     cmd += merge_cbmc_args(h, extra)
-    rc, wall, _ = run_cmd(cmd, scratch, max(h.timeout * 2, 600), max(h.mem, 12), logf)
+    rc, wall, _ = run_cmd(cmd, scratch, max(h.timeout * 2, 600), max(h.mem * 2, 24), logf)
     text = open(logf, errors="replace").read()
     tests = extract_playback_tests(text)
     failing = [t for t in tests if t[0] != "cover"]
@@ -520,6 +520,28 @@ def replay_file(path):
 
 # --------------------------------------------------------------------------
 # known findings
+
+
+def make_native_replay(crate, test_filter, input_desc):
+    """Fallback replay for a harness whose counterexample Kani cannot turn into a playback test (out of memory while
+    building the trace): a native test of the harness crate that exercises the harness' input class and FAILS while the
+    defect is present. Returns a hook (pid, harness, result) -> (reproduced, path)."""
+    def hook(pid, h, r):
+        cwd = prepare_crate(crate)
+        env = dict(ENV)
+        env["CARGO_TARGET_DIR"] = os.path.join(TARGET_ROOT, "native")
+        p = subprocess.run(["cargo", "test", "--offline", "--lib", test_filter, "--", "--nocapture", "--ignored"], cwd=cwd, env=env,
+                           capture_output=True, text=True, timeout=1800)
+        out = p.stdout + p.stderr
+        ran = re.search(r"running [1-9]\d* tests?", out) is not None
+        failed = ran and "test result: FAILED" in out
+        os.makedirs(os.path.join(REPLAYS, pid), exist_ok=True)
+        rpath = os.path.join(REPLAYS, pid, h.short + ".json")
+        json.dump({"property_id": pid, "crate": crate, "harness": h.name, "kind": "native demonstration",
+                   "native_test": "cargo test --lib %s -- --ignored (harness/%s)" % (test_filter, crate), "input": input_desc,
+                   "reproduced": bool(failed), "tail": out[-1500:]}, open(rpath, "w"), indent=1)
+        return (True if failed else (False if ran else None)), rpath
+    return hook
 
 
 def load_known():
